@@ -416,6 +416,9 @@ func sameValue(a, b ssa.Value) bool {
 	return false
 }
 
+// DefinitelyNonNilErr is the exported form used as the normaliser's oracle.
+func DefinitelyNonNilErr(v ssa.Value) bool { return definitelyNonNilErr(v) }
+
 // definitelyNonNilErr: constructors of errors and error globals.
 func definitelyNonNilErr(v ssa.Value) bool {
 	switch x := v.(type) {
